@@ -450,8 +450,8 @@ def oracle(item: Dict[str, Any], h: tuple, st: headless.Harness, r: common.Resul
 
 
 def raised_violation(item: Dict[str, Any], h: tuple, e: headless.Raised, r: common.Result) -> None:
-    sig = {"kind": "exception", "exc": e.exc_type, "site": e.site, "action": headless.action_abstract(e.action) if e.index >= 0 else e.action[0]}
-    sig["target"] = e.ctx.get("target")
+    sig = {"kind": "exception", "exc": e.exc_type, "site": e.site, "action": headless.action_family(e.action, e.ctx.get("target"))}
+    sig["target"] = e.ctx.get("target") if sig["action"] != "leave" else None
     sig["menu"] = e.ctx.get("menu")
     r.violation(sig, f"[{item['tree']} / {item['sdk_kind']}] {headless.fmt_history(h)}: {e}", mk_case(item, h))
 
